@@ -270,3 +270,17 @@ class Check:
             sys.exit(1)
         log('[%s] %s: property held on everything explored (%.0fs)' % (self.pid, self.tier, time.time() - self.t0))
         sys.exit(0)
+
+
+def tlc_many(jobs, parallel=6):
+    """jobs: list of (module, cfg, kwargs). Runs them concurrently; returns list of TlcResult."""
+    from concurrent.futures import ThreadPoolExecutor
+    def one(j):
+        module, cfg, kw = j
+        kw = dict(kw)
+        kw.setdefault('workers', 2)
+        kw.setdefault('timeout', 900)
+        kw.setdefault('heap', '3g')
+        return tlc(module, cfg, **kw)
+    with ThreadPoolExecutor(max_workers=parallel) as ex:
+        return list(ex.map(one, jobs))
